@@ -514,6 +514,65 @@ class Streams:
         if op == 'index': return 'ok %d' % out[1]
         return 'ok %d' % out[1]
 
+    # -------------------------------------------------------------- stream D2: derived axes of structured topologies
+    def axes(self):
+        """DimAxis.refined / getitem / intaxis / boundaries (+ IntAxis.opposite) against the model (`Model/C11Axes.lean`); the theorems
+        `structured_interface_sides` etc. assume `DimAx.ok`, which is checked here on every real axis; specification oracle: every side
+        of every interface / boundary facet is an element of the axis, the two sides of an interface are neighbours"""
+        from nutils import transformseq as S
+        rng = self.rng
+        ob = 'corr:dimaxis'
+        seen = set()
+        for _ in range(150 if self.quick else 3000):
+            n = rng.randint(1, 6); per = rng.random() < .5
+            ops = []
+            d = S.DimAxis(0, n, n if per else 0, per)
+            periodic = per
+            for _k in range(rng.randint(0, 3)):
+                if rng.random() < .4:
+                    ops.append('R'); d = d.refined
+                else:
+                    m = d.j - d.i
+                    a = rng.randint(0, m - 1); b = rng.randint(a + 1, m)
+                    if rng.random() < .3: a = 0
+                    if rng.random() < .3: b = m
+                    ops.append('G %d %d' % (a, b)); d = d.getitem(slice(a, b)); periodic = False
+            ib = rng.randint(0, 2)
+            line = 'dimaxis|0 %d %d %d|%s|%d' % (n, n if per else 0, per, ' '.join(ops), ib)
+            if line in seen: continue
+            seen.add(line)
+            def h(ans, line, d=d, ib=ib, periodic=periodic, ops=ops):
+                self.tick(ob); self.c.case(('dimaxis', line), nontrivial=bool(ops)); self.c.count('dimaxis:%s' % ('periodic' if periodic else 'slice-of-periodic' if d.mod else 'plain'))
+                replay = dict(op='dimaxis', request=line, model=ans)
+                sa = lambda a: '%d %d %d %d %d %d' % (a.i, a.j, a.mod, a.isdim, getattr(a, 'ibound', 0), bool(getattr(a, 'side', False)))
+                try:
+                    it, if_ = d.intaxis(ib, True), d.intaxis(ib, False)
+                    bnd = list(d.boundaries(ib)); opp = [a.opposite(ib) for a in bnd]
+                    n = len(d)
+                    # ---- specification oracle (independent of the model)
+                    if len(it) != len(if_) or len(it) != n - 1 + periodic:
+                        self.fail(ob, 'structured-interfaces-count-wrong', 'axis %s: %d / %d interface positions for %d elements (periodic: %s)' % (line, len(it), len(if_), n, periodic), replay); return
+                    for r in range(len(it)):
+                        try:
+                            e1, e2 = d.unmap(it.map(r)), d.unmap(if_.map(r))
+                        except ValueError:
+                            self.fail(ob, 'interface-side-not-in-topology', 'axis %s: a side of interface %d is not an element of the axis' % (line, r), dict(replay, interface=r)); return
+                        if e2 != (e1 + 1) % n or (not periodic and e2 != e1 + 1):
+                            self.fail(ob, 'interface-sides-not-neighbours', 'axis %s: interface %d lies between elements %d and %d' % (line, r, e1, e2), dict(replay, interface=r)); return
+                    if len(bnd) != (0 if periodic else 2) or any(len(a) != 1 for a in bnd) or (bnd and [d.unmap(a.map(0)) for a in bnd] != [0, n - 1]):
+                        self.fail(ob, 'structured-boundary-axes-wrong', 'axis %s: boundary axes %r' % (line, [sa(a) for a in bnd]), replay); return
+                    okax = d.i < d.j and ((d.mod == 0 and not d.isperiodic) or (d.mod > 0 and d.j - d.i <= d.mod and (not d.isperiodic or d.j - d.i == d.mod)))
+                    if not okax:
+                        self.disagree(ob, 'a real DimAxis violates the well-formedness the theorems assume (DimAx.ok): %s' % sa(d), replay); return
+                    want = '%d %d %d %d|%s|%s|%s|%s' % (d.i, d.j, d.mod, d.isperiodic, sa(it), sa(if_), ';'.join(sa(a) for a in bnd), ';'.join(sa(a) for a in opp))
+                except Exception as e:
+                    self.fail(ob, 'dimaxis-raises', 'deriving axes of %s raises %s: %s' % (line, type(e).__name__, str(e)[:100]), replay); return
+                if ans != want:
+                    self.disagree(ob, 'model and code disagree on the axes derived from %s' % line, dict(replay, real=want))
+                else:
+                    self.c.traces += 1
+            self.b.add(line, h)
+
     # -------------------------------------------------------------- stream E: compressed containers
     def ref_label(self, ref):
         from nutils import element
